@@ -17,11 +17,11 @@
 (*      layout's true extent (computed here).                                    *)
 EXTENDS TraceLib, Overlap
 
-VARIABLES l, nbad, ncase, nsub, nacc, nund
+VARIABLES l, nbad, ndrift, ncase, nsub, nacc, nund
 
 e == Rec[l]
 
-Init == l = 1 /\ nbad = NoBad /\ ncase = 0 /\ nsub = 0 /\ nacc = 0 /\ nund = 0
+Init == l = 1 /\ nbad = NoBad /\ ndrift = NoBad /\ ncase = 0 /\ nsub = 0 /\ nacc = 0 /\ nund = 0
 
 InjOf(c) == IF c.small
             THEN (IF InjectiveFast(c.shape, c.strides) THEN "yes" ELSE "no")
@@ -33,12 +33,14 @@ NeedsStorage(api) == api \notin {"dyn_layout", "nd_layout"}
 \* need = true extent of the layout (computed once per case; -1 when not small)
 EnoughStorage(s, need) == ~NeedsStorage(s.api) \/ (need >= 0 /\ s.storage >= need)
 
-\* Why did the code accept a non-injective layout?  Computed from the
-\* transcription in exact and in wrapping 64-bit arithmetic.
+\* Why did the code accept a non-injective layout?  Computed from the transcription in
+\* exact arithmetic, in the checked 64-bit arithmetic of the current code and in the
+\* wrapping arithmetic of the code before the repair (to name a regression).
 Reason(k) ==
-  IF ~MayOverlapImplW(k.shapeW, k.stridesW, FALSE) THEN "criterion_unsound"
-  ELSE IF ~MayOverlapImplW(k.shapeW, k.stridesW, TRUE)
-       THEN (IF IsContiguousImplW(k.shapeW, k.stridesW, TRUE)
+  IF ~MayOverlapImplW(k.shapeW, k.stridesW, "exact") THEN "criterion_unsound"
+  ELSE IF ~MayOverlapImplW(k.shapeW, k.stridesW, "checked") THEN "checked_transcription_accepts"
+  ELSE IF ~MayOverlapImplW(k.shapeW, k.stridesW, "wrap")
+       THEN (IF IsContiguousImplW(k.shapeW, k.stridesW, "wrap")
              THEN "contiguous_product_wrapped" ELSE "max_offset_wrapped")
   ELSE "accepted_despite_criterion"
 
@@ -61,6 +63,22 @@ JudgeOne(bad, k, inj, need, s) ==
      ELSE Flag(b1, FALSE, [kind |-> "derived_rejected", api |-> s.api,
                            class |-> ClassGroup(k), reason |-> s.outcome], rec)
 
+\* DRIFT (exit 0): the two storage-free APIs answer exactly what the transcription of the
+\* current (checked) code predicts
+Drift(dr, ok, sig, rec) ==
+  IF ok THEN dr
+  ELSE IF sig \in DOMAIN dr THEN [dr EXCEPT ![sig] = @ + 1]
+  ELSE Print(<<"DRIFTCASE", ToJson(sig), ToJson(rec)>>, dr @@ (sig :> 1))
+RECURSIVE DriftAll(_, _, _, _)
+DriftAll(dr, k, predicted, i) ==
+  IF i > Len(k.subs) THEN dr
+  ELSE LET s == k.subs[i] IN
+       DriftAll(IF s.api \in {"dyn_layout", "nd_layout"}
+                THEN Drift(dr, (s.outcome = "ok") = predicted,
+                           [kind |-> "outcome", api |-> s.api, transcription |-> predicted, real |-> s.outcome],
+                           [shapeW |-> k.shapeW, stridesW |-> k.stridesW, class |-> k.class])
+                ELSE dr, k, predicted, i + 1)
+
 RECURSIVE JudgeAll(_, _, _, _, _)
 JudgeAll(bad, k, inj, need, i) ==
   IF i > Len(k.subs) THEN bad ELSE JudgeAll(JudgeOne(bad, k, inj, need, k.subs[i]), k, inj, need, i + 1)
@@ -71,6 +89,8 @@ Case == /\ e.ev = "case"
            \E need \in {IF k.small THEN MinDataLen(k.shape, k.strides) ELSE 0 - 1} :
              /\ nund' = nund + (IF inj = "unknown" THEN 1 ELSE 0)
              /\ nbad' = JudgeAll(nbad, k, inj, need, 1)
+             /\ \E predicted \in {~MayOverlapImplW(k.shapeW, k.stridesW, "checked")} :
+                  ndrift' = DriftAll(ndrift, k, predicted, 1)
         /\ ncase' = ncase + 1
         /\ nsub' = nsub + Len(e.subs)
         /\ nacc' = nacc + Cardinality({i \in 1..Len(e.subs) : e.subs[i].outcome = "ok"})
@@ -79,6 +99,7 @@ Next == /\ l <= NRec /\ l' = l + 1 /\ Case
 
 Report == l = NRec + 1 =>
             /\ ReportBad(nbad)
+            /\ \A s \in DOMAIN ndrift : Print(<<"DRIFTSIG", ToJson(s), ndrift[s]>>, TRUE)
             /\ Stat("cases", ncase) /\ Stat("submits", nsub) /\ Stat("accepted", nacc)
             /\ Stat("undecided", nund)
 =============================================================================
